@@ -1,4 +1,630 @@
-import ElfioVerif.Model.SecBuf
-import ElfioVerif.Spec.Edit
-namespace ElfioVerif.C07
-end ElfioVerif.C07
+/-
+C07 — section data editing behaves like editing a byte string.
+
+Statements only use: the model (`SecBuf.setData/appendData/insertData`, built from the
+generated guards), the reference semantics `Spec.edit`, and explicit, decidable size bounds.
+-/
+import ElfioVerif.Lemmas.SecBuf
+namespace ElfioVerif
+open Gen
+
+namespace SecBuf
+
+/-- Size bound under which neither the ELF32 field width nor the 2^64 guards of the capacity
+    doubling can fire.  (A section of 4 GiB in ELF32, or of 2 EiB in ELF64, is outside.) -/
+def Bound (c : Cls) (k : Nat) : Prop :=
+  match c with
+  | .c32 => k < 4294967296
+  | .c64 => 8 * k < 18446744073709551616
+
+/-- A consistent buffer whose bytes are in memory. -/
+structure Resident (b : SecBuf) : Prop where
+  notNobits : b.stype ≠ BitVec.ofNat 32 SHT_NOBITS
+  pend : b.data = none → (b.isLazy && !b.isLoaded) = false
+  buf : (b.data = none ∧ b.size = 0 ∧ b.dataSize = 0) ∨
+        (∃ a, b.data = some a ∧ b.size.toNat ≤ b.dataSize.toNat ∧ b.dataSize.toNat ≤ a.length)
+  cap : b.dataSize.toNat ≤ 3 * b.size.toNat
+
+/-- A lazily loaded section whose bytes `d` are still only in the file. -/
+structure Pending (b : SecBuf) (d : Bytes) : Prop where
+  isLazy : b.isLazy = true
+  notLoaded : b.isLoaded = false
+  canLoad : b.canLoad = true
+  noData : b.data = none
+  fileData : b.fileData = some d
+  len : d.length = b.size.toNat
+  typeOk : b.isNullOrNobits = false
+
+/-- The invariant every reachable section satisfies (fresh, loaded eagerly, loaded lazily,
+    and after any sequence of edits). -/
+def Inv (b : SecBuf) : Prop := b.Resident ∨ ∃ d, b.Pending d
+
+/-- The byte string the section stands for. -/
+def content (b : SecBuf) : Bytes :=
+  if b.data.isNone && b.isLazy && !b.isLoaded then b.fileData.getD [] else b.view
+
+/-- one editing operation of the reference semantics, executed on the model -/
+def applyOp (b : SecBuf) : Spec.EditOp → M SecBuf
+  | .replace bs => b.setData (some bs) (BitVec.ofNat 64 bs.length)
+  | .append bs => b.appendData bs
+  | .insert pos bs => b.insertData (BitVec.ofNat 64 pos) bs
+
+def applyOps (b : SecBuf) : List Spec.EditOp → M SecBuf
+  | [] => pure b
+  | op :: ops => do let b' ← b.applyOp op; applyOps b' ops
+
+def opChunk : Spec.EditOp → Bytes
+  | .replace bs => bs | .append bs => bs | .insert _ bs => bs
+def opPos : Spec.EditOp → Nat
+  | .insert p _ => p | _ => 0
+
+/-- all intermediate byte strings of the *reference* run stay inside `Bound` -/
+def OpsFit (c : Cls) : Bytes → List Spec.EditOp → Prop
+  | _, [] => True
+  | l, op :: ops =>
+    Bound c (l.length + (opChunk op).length) ∧ opPos op < 18446744073709551616 ∧
+      OpsFit c (Spec.edit l op) ops
+
+end SecBuf
+
+namespace C07
+open SecBuf
+
+/-! ### auxiliary facts -/
+
+theorem view_length {b : SecBuf} (h : b.Resident) : b.view.length = b.size.toNat := by
+  unfold SecBuf.view
+  rcases h.buf with ⟨hd, hs, _⟩ | ⟨a, hd, h1, h2⟩
+  · simp [hd, hs]
+  · simp [hd]; omega
+
+theorem bound_lt {c : Cls} {k : Nat} (h : Bound c k) : k < 18446744073709551616 := by
+  cases c <;> simp [Bound] at h <;> omega
+
+theorem setSize_toNat (b : SecBuf) (v : BitVec 64) (h : Bound b.cls v.toNat) :
+    (b.setSize v).size.toNat = v.toNat := by
+  unfold SecBuf.setSize
+  cases hc : b.cls <;> simp only [hc, Bound] at h ⊢
+  · simp only [sec32_set_size_trunc, BitVec.toNat_setWidth, Nat.reducePow]
+    omega
+  · simp [sec64_set_size_trunc]
+
+theorem setSize_other (b : SecBuf) (v : BitVec 64) :
+    (b.setSize v).data = b.data ∧ (b.setSize v).dataSize = b.dataSize ∧ (b.setSize v).stype = b.stype ∧
+    (b.setSize v).cls = b.cls ∧ (b.setSize v).isLazy = b.isLazy ∧ (b.setSize v).isLoaded = b.isLoaded ∧
+    (b.setSize v).translatorEmpty = b.translatorEmpty := by
+  unfold SecBuf.setSize; cases b.cls <;> simp
+
+theorem rd_ok (site : String) (buf : Option Bytes) (off len : Nat)
+    (h0 : buf = none → off = 0 ∧ len = 0) (h1 : off + len ≤ (buf.getD []).length) :
+    rdRange site buf off len = .ok (slice (buf.getD []) off len) := by
+  cases buf with
+  | none => obtain ⟨rfl, rfl⟩ := h0 rfl; simp [rdRange, slice, pure, Except.pure]
+  | some b => simp at h1; simp [rdRange, h1, pure, Except.pure]
+
+theorem wr_ok (site : String) (b : Bytes) (off : Nat) (src : Bytes) (h : off + src.length ≤ b.length) :
+    wrRange site (some b) off src = .ok (some (wr b off src)) := by
+  simp [wrRange, h, pure, Except.pure]
+
+/-- `get_data()` on a buffer that already has data only flips flags -/
+theorem getData_some {b : SecBuf} {a : Bytes} (hd : b.data = some a) :
+    b.getData.data = some a ∧ b.getData.size = b.size ∧ b.getData.dataSize = b.dataSize ∧
+    b.getData.cls = b.cls ∧ b.getData.stype = b.stype ∧
+    b.getData.translatorEmpty = b.translatorEmpty ∧ b.getData.streamSize = b.streamSize := by
+  unfold SecBuf.getData SecBuf.loadData
+  split
+  · cases hf : b.fileData with
+    | none => simp [hd]
+    | some d => simp only [hd, Option.isNone_some, Bool.false_and, Bool.false_eq_true, if_false,
+        Option.isSome_some, Bool.true_or, if_true]; simp
+  · simp [hd]
+
+theorem getData_pending_eq {b : SecBuf} {d : Bytes} (h : b.Pending d) :
+    b.getData = if b.size = 0 then { b with data := some (alloc 1), dataSize := 0, isLoaded := true }
+                else { b with data := some (d ++ [0]), dataSize := b.size, isLoaded := true } := by
+  unfold SecBuf.getData SecBuf.loadData
+  simp only [h.notLoaded, h.canLoad, h.fileData, h.noData, h.typeOk, Bool.not_false, Bool.and_self,
+    if_true, Option.isNone_none]
+  split <;> simp
+
+/-- `get_data()` on a pending lazy section reads exactly the file bytes -/
+theorem getData_pending {b : SecBuf} {d : Bytes} (h : b.Pending d) :
+    b.getData.Resident ∧ b.getData.view = d ∧ b.getData.cls = b.cls ∧ b.getData.size = b.size ∧
+    b.getData.data.isSome = true := by
+  have hnb : b.stype ≠ BitVec.ofNat 32 SHT_NOBITS := by
+    have := h.typeOk
+    simp only [SecBuf.isNullOrNobits, Bool.or_eq_false_iff] at this
+    intro e; rw [e] at this; simp at this
+  rw [getData_pending_eq h]
+  by_cases hs : b.size = 0
+  · have hl : d.length = 0 := by rw [h.len, hs]; rfl
+    have hd : d = [] := List.eq_nil_of_length_eq_zero hl
+    rw [if_pos hs]
+    refine ⟨⟨hnb, by simp, Or.inr ⟨alloc 1, rfl, by simp [hs], by simp⟩, by simp⟩, ?_, rfl, rfl, rfl⟩
+    simp [SecBuf.view, hd, hs]
+  · rw [if_neg hs]
+    refine ⟨⟨hnb, by simp, Or.inr ⟨d ++ [0], rfl, Nat.le_refl _, ?_⟩, by simp; omega⟩, ?_, rfl, rfl, rfl⟩
+    · simp [h.len]
+    · simp [SecBuf.view, ← h.len]
+
+/-- the buffer facts `insert_data` needs (no flags) -/
+structure Core (b : SecBuf) : Prop where
+  buf : (b.data = none ∧ b.size = 0 ∧ b.dataSize = 0) ∨
+        (∃ a, b.data = some a ∧ b.size.toNat ≤ b.dataSize.toNat ∧ b.dataSize.toNat ≤ a.length)
+  cap : b.dataSize.toNat ≤ 3 * b.size.toNat
+
+theorem Core.view_length {b : SecBuf} (h : Core b) : b.view.length = b.size.toNat := by
+  unfold SecBuf.view
+  rcases h.buf with ⟨hd, hs, _⟩ | ⟨a, hd, h1, h2⟩
+  · simp [hd, hs]
+  · simp [hd]; omega
+
+theorem wr_opt_ok (site : String) (buf : Option Bytes) (off : Nat) (src : Bytes)
+    (h0 : buf = none → off = 0 ∧ src = []) (h1 : off + src.length ≤ (buf.getD []).length) :
+    wrRange site buf off src = .ok (buf.map fun b => wr b off src) := by
+  cases buf with
+  | none => obtain ⟨rfl, rfl⟩ := h0 rfl; simp [wrRange, pure, Except.pure]
+  | some b => simp at h1; simp [wrRange, h1, pure, Except.pure]
+
+theorem insertFinish_props (b : SecBuf) (ns n : BitVec 64) (hb : Bound b.cls ns.toNat) :
+    (b.insertFinish ns n).size.toNat = ns.toNat ∧ (b.insertFinish ns n).data = b.data ∧
+    (b.insertFinish ns n).dataSize = b.dataSize ∧ (b.insertFinish ns n).cls = b.cls ∧
+    (b.insertFinish ns n).stype = b.stype ∧ (b.insertFinish ns n).isLazy = b.isLazy ∧
+    (b.insertFinish ns n).isLoaded = b.isLoaded := by
+  have h1 := setSize_toNat b ns hb
+  obtain ⟨h2, h3, h4, h5, h6, h7, h8⟩ := setSize_other b ns
+  unfold SecBuf.insertFinish
+  by_cases ht : (b.setSize ns).translatorEmpty = true
+  · simp only [ht, if_true]; exact ⟨h1, h2, h3, h5, h4, h6, h7⟩
+  · simp only [ht, if_false]; exact ⟨h1, h2, h3, h5, h4, h6, h7⟩
+
+/-- conclusion of the insert lemmas -/
+def InsertPost (b b' : SecBuf) (pos : Nat) (raw : Bytes) : Prop :=
+  Core b' ∧ b'.cls = b.cls ∧ b'.stype = b.stype ∧ b'.isLazy = b.isLazy ∧ b'.isLoaded = b.isLoaded ∧
+    (b'.data = none → b.data = none) ∧ b'.view = Spec.insertAt b.view pos raw
+
+/-- `insert_data` proper on a buffer with an allocation -/
+theorem insertBody_some (b : SecBuf) (a : Bytes) (hd : b.data = some a)
+    (h1 : b.size.toNat ≤ b.dataSize.toNat) (h2 : b.dataSize.toNat ≤ a.length)
+    (hcap : b.dataSize.toNat ≤ 3 * b.size.toNat)
+    (pos : BitVec 64) (raw : Bytes) (hb : Bound b.cls (b.size.toNat + raw.length)) :
+    ∃ b', b.insertBody pos raw = .ok b' ∧ InsertPost b b' pos.toNat raw := by
+  have hlt := bound_lt hb
+  have hvl : b.view.length = b.size.toNat := by simp [SecBuf.view, hd]; omega
+  have hview : b.view = a.take b.size.toNat := by simp [SecBuf.view, hd]
+  have hn : (BitVec.ofNat 64 raw.length).toNat = raw.length := by
+    simp only [BitVec.toNat_ofNat, Nat.reducePow]; omega
+  have hcore : Core b := ⟨Or.inr ⟨a, hd, h1, h2⟩, hcap⟩
+  unfold SecBuf.insertBody
+  simp only [s32_pos_gt, s32_ovf_size, s32_new_size, s32_fits, ite_self, g_pos_gt, g_fits]
+  by_cases hp : b.size.toNat < pos.toNat
+  · simp only [hp, decide_true, if_true]
+    refine ⟨b, rfl, hcore, rfl, rfl, rfl, rfl, id, ?_⟩
+    simp [Spec.insertAt, hvl]; omega
+  · simp only [hp, decide_false, Bool.false_eq_true, if_false]
+    have hov : sec64_insert_ovf_size (BitVec.ofNat 64 raw.length) b.size = false :=
+      g_ovf_size_false _ _ (by rw [hn]; omega)
+    simp only [hov, Bool.false_eq_true, if_false]
+    have hns : (sec64_insert_new_size b.size (BitVec.ofNat 64 raw.length)).toNat
+        = b.size.toNat + raw.length := by
+      rw [g_new_size _ _ (by rw [hn]; omega), hn]
+    generalize sec64_insert_new_size b.size (BitVec.ofNat 64 raw.length) = ns at hns
+    have hbns : Bound b.cls ns.toNat := by rw [hns]; exact hb
+    have hia : Spec.insertAt b.view pos.toNat raw
+        = (b.view.take pos.toNat) ++ raw ++ (b.view.drop pos.toNat) := by
+      simp [Spec.insertAt, hvl]; omega
+    have hl2 : (slice a pos.toNat (b.size.toNat - pos.toNat)).length = b.size.toNat - pos.toNat := by
+      simp [slice]; omega
+    by_cases hf : ns.toNat ≤ b.dataSize.toNat
+    · -- in place
+      simp only [hf, decide_true, if_true]
+      have hr : rdRange "insert_data/copy_backward-src" b.data pos.toNat (b.size.toNat - pos.toNat)
+          = .ok (slice a pos.toNat (b.size.toNat - pos.toNat)) := by
+        rw [hd]; exact rdRange_some_ok (by omega)
+      have hw1 : wrRange "insert_data/copy_backward" b.data (pos.toNat + raw.length)
+          (slice a pos.toNat (b.size.toNat - pos.toNat))
+          = .ok (some (wr a (pos.toNat + raw.length) (slice a pos.toNat (b.size.toNat - pos.toNat)))) := by
+        rw [hd]; exact wr_ok _ _ _ _ (by rw [hl2]; omega)
+      have hlen1 : (wr a (pos.toNat + raw.length) (slice a pos.toNat (b.size.toNat - pos.toNat))).length
+          = a.length := wr_length _ _ _ (by rw [hl2]; omega)
+      have hw2 := wr_ok "insert_data/copy"
+        (wr a (pos.toNat + raw.length) (slice a pos.toNat (b.size.toNat - pos.toNat))) pos.toNat raw
+        (by rw [hlen1]; omega)
+      simp only [SecBuf.insertInPlace, hr, hw1, hw2, bind, Except.bind, pure, Except.pure]
+      obtain ⟨f1, f2, f3, f4, f5, f6, f7⟩ := insertFinish_props
+        { b with data := some (wr (wr a (pos.toNat + raw.length)
+            (slice a pos.toNat (b.size.toNat - pos.toNat))) pos.toNat raw) }
+        ns (BitVec.ofNat 64 raw.length) hbns
+      refine ⟨_, rfl, ⟨Or.inr ⟨_, f2, ?_, ?_⟩, ?_⟩, f4, f5, f6, f7, ?_, ?_⟩
+      · rw [f1, f3]; exact hf
+      · rw [f3, wr_length _ _ _ (by rw [hlen1]; omega), hlen1]; exact h2
+      · rw [f1, f3]; show b.dataSize.toNat ≤ 3 * ns.toNat; omega
+      · intro e; rw [f2] at e; simp at e
+      · rw [hia, hview]
+        unfold SecBuf.view
+        rw [f1, f2, hns]
+        simp only [Option.getD_some]
+        exact inplace_view a raw pos.toNat b.size.toNat (by omega) (by omega)
+    · -- reallocation
+      simp only [hf, decide_false, Bool.false_eq_true, if_false]
+      have hg : 2 * b.dataSize.toNat + (BitVec.ofNat 64 raw.length).toNat < 18446744073709551616 := by
+        rw [hn]
+        cases hc : b.cls <;> simp only [hc, Bound] at hb <;> omega
+      rw [growSize_eq _ _ _ hg, hn]
+      have hnds : (BitVec.ofNat 64 (2 * b.dataSize.toNat + raw.length)).toNat
+          = 2 * b.dataSize.toNat + raw.length := by
+        simp only [BitVec.toNat_ofNat, Nat.reducePow]; rw [hn] at hg; omega
+      simp only [hnds]
+      generalize hN : 2 * b.dataSize.toNat + raw.length = N at hnds
+      have hNge : b.size.toNat + raw.length ≤ N := by omega
+      have hr1 : rdRange "insert_data/copy-head-src" b.data 0 pos.toNat = .ok (slice a 0 pos.toNat) := by
+        rw [hd]; exact rdRange_some_ok (by omega)
+      have hr2 : rdRange "insert_data/copy-tail-src" b.data pos.toNat (b.size.toNat - pos.toNat)
+          = .ok (slice a pos.toNat (b.size.toNat - pos.toNat)) := by
+        rw [hd]; exact rdRange_some_ok (by omega)
+      have hl1 : (slice a 0 pos.toNat).length = pos.toNat := by simp [slice]; omega
+      have hw1 := wr_ok "insert_data/copy-head" (alloc N) 0 (slice a 0 pos.toNat)
+        (by rw [hl1]; simp; omega)
+      have hlen1 : (wr (alloc N) 0 (slice a 0 pos.toNat)).length = N := by
+        rw [wr_length _ _ _ (by rw [hl1]; simp; omega)]; simp
+      have hw2 := wr_ok "insert_data/copy-new" (wr (alloc N) 0 (slice a 0 pos.toNat))
+        pos.toNat raw (by rw [hlen1]; omega)
+      have hlen2 : (wr (wr (alloc N) 0 (slice a 0 pos.toNat)) pos.toNat raw).length = N := by
+        rw [wr_length _ _ _ (by rw [hlen1]; omega)]; exact hlen1
+      have hw3 := wr_ok "insert_data/copy-tail"
+        (wr (wr (alloc N) 0 (slice a 0 pos.toNat)) pos.toNat raw)
+        (pos.toNat + raw.length) (slice a pos.toNat (b.size.toNat - pos.toNat))
+        (by rw [hlen2, hl2]; omega)
+      simp only [SecBuf.insertGrow, hr1, hr2, hw1, hw2, hw3, bind, Except.bind, pure, Except.pure]
+      obtain ⟨f1, f2, f3, f4, f5, f6, f7⟩ := insertFinish_props
+        { b with data := some (wr (wr (wr (alloc N) 0 (slice a 0 pos.toNat)) pos.toNat raw)
+            (pos.toNat + raw.length) (slice a pos.toNat (b.size.toNat - pos.toNat))),
+                 dataSize := BitVec.ofNat 64 N }
+        ns (BitVec.ofNat 64 raw.length) hbns
+      refine ⟨_, rfl, ⟨Or.inr ⟨_, f2, ?_, ?_⟩, ?_⟩, f4, f5, f6, f7, ?_, ?_⟩
+      · rw [f1, f3, hns]; simp only [hnds]; omega
+      · rw [f3]; simp only [hnds]
+        rw [wr_length _ _ _ (by rw [hlen2, hl2]; omega), hlen2]; exact Nat.le_refl _
+      · rw [f1, f3, hns]; simp only [hnds]; omega
+      · intro e; rw [f2] at e; simp at e
+      · rw [hia, hview]
+        unfold SecBuf.view
+        rw [f1, f2, hns]
+        simp only [Option.getD_some]
+        exact grow_view a raw pos.toNat b.size.toNat N (by omega) (by omega) hNge
+
+/-- `insert_data` proper on an empty section without allocation -/
+theorem insertBody_none (b : SecBuf) (hd : b.data = none) (hs : b.size = 0) (hds : b.dataSize = 0)
+    (pos : BitVec 64) (raw : Bytes) (hb : Bound b.cls (b.size.toNat + raw.length)) :
+    ∃ b', b.insertBody pos raw = .ok b' ∧ InsertPost b b' pos.toNat raw := by
+  have hlt := bound_lt hb
+  have hs0 : b.size.toNat = 0 := by rw [hs]; rfl
+  have hds0 : b.dataSize.toNat = 0 := by rw [hds]; rfl
+  have hview : b.view = [] := by simp [SecBuf.view, hd]
+  have hn : (BitVec.ofNat 64 raw.length).toNat = raw.length := by
+    simp only [BitVec.toNat_ofNat, Nat.reducePow]; omega
+  have hcore : Core b := ⟨Or.inl ⟨hd, hs, hds⟩, by omega⟩
+  unfold SecBuf.insertBody
+  simp only [s32_pos_gt, s32_ovf_size, s32_new_size, s32_fits, ite_self, g_pos_gt, g_fits]
+  by_cases hp : b.size.toNat < pos.toNat
+  · simp only [hp, decide_true, if_true]
+    refine ⟨b, rfl, hcore, rfl, rfl, rfl, rfl, id, ?_⟩
+    simp [Spec.insertAt, hview]; omega
+  · simp only [hp, decide_false, Bool.false_eq_true, if_false]
+    have hp0 : pos.toNat = 0 := by omega
+    have hov : sec64_insert_ovf_size (BitVec.ofNat 64 raw.length) b.size = false :=
+      g_ovf_size_false _ _ (by rw [hn]; omega)
+    simp only [hov, Bool.false_eq_true, if_false]
+    have hns : (sec64_insert_new_size b.size (BitVec.ofNat 64 raw.length)).toNat
+        = b.size.toNat + raw.length := by
+      rw [g_new_size _ _ (by rw [hn]; omega), hn]
+    generalize sec64_insert_new_size b.size (BitVec.ofNat 64 raw.length) = ns at hns
+    have hbns : Bound b.cls ns.toNat := by rw [hns]; exact hb
+    have hia : Spec.insertAt b.view pos.toNat raw = raw := by
+      simp [Spec.insertAt, hview, hp0]
+    by_cases hf : ns.toNat ≤ b.dataSize.toNat
+    · -- nothing to insert, nothing allocated
+      have hr0 : raw = [] := List.eq_nil_of_length_eq_zero (by omega)
+      simp only [hf, decide_true, if_true]
+      simp only [SecBuf.insertInPlace, hd, hs0, hp0, hr0, rdRange, wrRange, List.length_nil,
+        and_self, if_true, bind, Except.bind, pure, Except.pure, Nat.sub_self, Nat.add_zero]
+      obtain ⟨f1, f2, f3, f4, f5, f6, f7⟩ := insertFinish_props { b with data := none }
+        ns (0#64) hbns
+      refine ⟨_, rfl, ⟨Or.inl ⟨f2, ?_, by rw [f3]; exact hds⟩, ?_⟩, f4, f5, f6, f7, fun _ => hd, ?_⟩
+      · apply BitVec.eq_of_toNat_eq; rw [f1]; simp; omega
+      · rw [f3]; show b.dataSize.toNat ≤ _; omega
+      · unfold SecBuf.view; rw [f2]; simp [Spec.insertAt, hd]
+    · simp only [hf, decide_false, Bool.false_eq_true, if_false]
+      have hg : 2 * b.dataSize.toNat + (BitVec.ofNat 64 raw.length).toNat < 18446744073709551616 := by
+        rw [hn]; omega
+      rw [growSize_eq _ _ _ hg, hn]
+      have hnds : (BitVec.ofNat 64 (2 * b.dataSize.toNat + raw.length)).toNat
+          = 2 * b.dataSize.toNat + raw.length := by
+        simp only [BitVec.toNat_ofNat, Nat.reducePow]; rw [hn] at hg; omega
+      simp only [hnds]
+      generalize hN : 2 * b.dataSize.toNat + raw.length = N at hnds
+      have hNe : N = raw.length := by omega
+      have hw1 := wr_ok "insert_data/copy-head" (alloc N) 0 ([] : Bytes) (by simp)
+      have hlen1 : (wr (alloc N) 0 ([] : Bytes)).length = N := by
+        rw [wr_length _ _ _ (by simp)]; simp
+      have hw2 := wr_ok "insert_data/copy-new" (wr (alloc N) 0 ([] : Bytes)) 0 raw
+        (by rw [hlen1]; omega)
+      have hlen2 : (wr (wr (alloc N) 0 ([] : Bytes)) 0 raw).length = N := by
+        rw [wr_length _ _ _ (by rw [hlen1]; omega)]; exact hlen1
+      have hw3 := wr_ok "insert_data/copy-tail" (wr (wr (alloc N) 0 ([] : Bytes)) 0 raw)
+        (0 + raw.length) ([] : Bytes) (by rw [hlen2]; simp; omega)
+      simp only [SecBuf.insertGrow, hd, hs0, hp0, rdRange, and_self, if_true, Nat.sub_self,
+        hw1, hw2, hw3, bind, Except.bind, pure, Except.pure]
+      obtain ⟨f1, f2, f3, f4, f5, f6, f7⟩ := insertFinish_props
+        { b with data := some (wr (wr (wr (alloc N) 0 ([] : Bytes)) 0 raw) (0 + raw.length) ([] : Bytes)),
+                 dataSize := BitVec.ofNat 64 N }
+        ns (BitVec.ofNat 64 raw.length) hbns
+      refine ⟨_, rfl, ⟨Or.inr ⟨_, f2, ?_, ?_⟩, ?_⟩, f4, f5, f6, f7, ?_, ?_⟩
+      · rw [f1, f3, hns]; simp only [hnds]; omega
+      · rw [f3]; simp only [hnds]
+        rw [wr_length _ _ _ (by rw [hlen2]; simp; omega), hlen2]; exact Nat.le_refl _
+      · rw [f1, f3, hns]; simp only [hnds]; omega
+      · intro e; rw [f2] at e; simp at e
+      · rw [hp0] at hia; rw [hia]
+        unfold SecBuf.view
+        rw [f1, f2, hns, hs0]
+        simp only [Option.getD_some]
+        have := grow_view ([] : Bytes) raw 0 0 N (by omega) (by simp) (by omega)
+        simpa [slice] using this
+
+/-- `insert_data` proper on any consistent buffer is list insertion -/
+theorem insertBody_core (b : SecBuf) (h : Core b) (pos : BitVec 64) (raw : Bytes)
+    (hb : Bound b.cls (b.size.toNat + raw.length)) :
+    ∃ b', b.insertBody pos raw = .ok b' ∧ InsertPost b b' pos.toNat raw := by
+  rcases h.buf with ⟨hd, hs, hds⟩ | ⟨a, hd, h1, h2⟩
+  · exact insertBody_none b hd hs hds pos raw hb
+  · exact insertBody_some b a hd h1 h2 h.cap pos raw hb
+
+theorem content_resident {b : SecBuf} (h : b.Resident) : b.content = b.view := by
+  unfold SecBuf.content
+  cases hd : b.data with
+  | none => have := h.pend hd; simp only [Option.isNone_none, Bool.true_and, this]; simp
+  | some a => simp
+
+theorem content_pending {b : SecBuf} {d : Bytes} (h : b.Pending d) : b.content = d := by
+  unfold SecBuf.content
+  simp [h.noData, h.isLazy, h.notLoaded, h.fileData]
+
+theorem content_length {b : SecBuf} (h : b.Inv) : b.content.length = b.size.toNat := by
+  rcases h with h | ⟨d, h⟩
+  · rw [content_resident h]; exact view_length h
+  · rw [content_pending h]; exact h.len
+
+theorem resident_core {b : SecBuf} (h : b.Resident) : Core b := ⟨h.buf, h.cap⟩
+
+/-! ### the property theorems -/
+
+/-- **insert** : on every reachable section that is not NOBITS, `insert_data(pos, chunk)` succeeds
+    without leaving its buffers and the section then stands for the byte string with the chunk
+    inserted at `pos` — or for the same byte string when `pos` is beyond the size. -/
+theorem insert_refines (b : SecBuf) (hI : b.Inv) (pos : BitVec 64) (raw : Bytes)
+    (hb : Bound b.cls (b.content.length + raw.length)) :
+    ∃ b', b.insertData pos raw = .ok b' ∧ b'.Resident ∧ b'.cls = b.cls ∧
+      b'.content = Spec.insertAt b.content pos.toNat raw := by
+  rw [content_length hI] at hb
+  unfold SecBuf.insertData
+  simp only [s32_not_nobits, s32_make_resident, ite_self, g_not_nobits]
+  rcases hI with h | ⟨d, h⟩
+  · -- resident
+    have hnn : (b.stype != BitVec.ofNat 32 SHT_NOBITS) = true := by simpa using h.notNobits
+    simp only [hnn, Bool.not_true, Bool.false_eq_true, if_false]
+    rw [content_resident h]
+    by_cases hp : sec64_insert_make_resident b.isLazy b.isLoaded = true
+    · simp only [hp, if_true]
+      cases hd : b.data with
+      | none =>
+        have := h.pend hd
+        simp [sec64_insert_make_resident] at hp
+        simp [hp] at this
+      | some a =>
+        obtain ⟨g1, g2, g3, g4, g5, g6, g7⟩ := getData_some hd
+        have hc : Core b.getData := by
+          rcases h.buf with ⟨e, _, _⟩ | ⟨a', e, e1, e2⟩
+          · rw [hd] at e; simp at e
+          · rw [hd] at e; cases e
+            exact ⟨Or.inr ⟨a, g1, by rw [g2, g3]; exact e1, by rw [g3]; exact e2⟩, by rw [g2, g3]; exact h.cap⟩
+        obtain ⟨b', e, c, p1, p2, p3, p4, p5, p6⟩ :=
+          insertBody_core b.getData hc pos raw (by rw [g4, g2]; exact hb)
+        have hv : b.getData.view = b.view := by simp [SecBuf.view, g1, g2, hd]
+        refine ⟨b', e, ⟨by rw [p2, g5]; exact h.notNobits, ?_, c.buf, c.cap⟩, by rw [p1, g4], ?_⟩
+        · intro e'; have := p5 e'; rw [g1] at this; simp at this
+        · have hr : b'.Resident := ⟨by rw [p2, g5]; exact h.notNobits,
+            (fun e' => by have := p5 e'; rw [g1] at this; simp at this), c.buf, c.cap⟩
+          rw [content_resident hr, p6, hv]
+    · simp only [hp, Bool.false_eq_true, if_false]
+      obtain ⟨b', e, c, p1, p2, p3, p4, p5, p6⟩ := insertBody_core b (resident_core h) pos raw hb
+      have hr : b'.Resident := ⟨by rw [p2]; exact h.notNobits,
+        (fun e' => by rw [p3, p4]; exact h.pend (p5 e')), c.buf, c.cap⟩
+      exact ⟨b', e, hr, p1, by rw [content_resident hr, p6]⟩
+  · -- lazily loaded, not yet resident: the data is read first
+    have hnb : b.stype ≠ BitVec.ofNat 32 SHT_NOBITS := by
+      have := h.typeOk
+      simp only [SecBuf.isNullOrNobits, Bool.or_eq_false_iff] at this
+      intro e; rw [e] at this; simp at this
+    have hnn : (b.stype != BitVec.ofNat 32 SHT_NOBITS) = true := by simpa using hnb
+    simp only [hnn, Bool.not_true, Bool.false_eq_true, if_false]
+    have hp : sec64_insert_make_resident b.isLazy b.isLoaded = true := by
+      simp [sec64_insert_make_resident, h.isLazy, h.notLoaded]
+    simp only [hp, if_true]
+    obtain ⟨r, v, c1, c2, c3⟩ := getData_pending h
+    obtain ⟨b', e, c, p1, p2, p3, p4, p5, p6⟩ :=
+      insertBody_core b.getData (resident_core r) pos raw (by rw [c1, c2]; exact hb)
+    have hr : b'.Resident := ⟨by rw [p2]; exact r.notNobits,
+      (fun e' => by have := p5 e'; rw [this] at c3; simp at c3), c.buf, c.cap⟩
+    refine ⟨b', e, hr, by rw [p1, c1], ?_⟩
+    rw [content_resident hr, p6, v, content_pending h]
+
+/-- **append** -/
+theorem append_refines (b : SecBuf) (hI : b.Inv) (raw : Bytes)
+    (hb : Bound b.cls (b.content.length + raw.length)) :
+    ∃ b', b.appendData raw = .ok b' ∧ b'.Resident ∧ b'.cls = b.cls ∧
+      b'.content = b.content ++ raw := by
+  obtain ⟨b', e, r, c, v⟩ := insert_refines b hI b.size raw hb
+  refine ⟨b', e, r, c, ?_⟩
+  rw [v, ← content_length hI, Spec.insertAt_length_eq_append]
+
+theorem setFinish_props (b : SecBuf) (hb : Bound b.cls b.dataSize.toNat) :
+    b.setFinish.size.toNat = b.dataSize.toNat ∧ b.setFinish.data = b.data ∧
+    b.setFinish.dataSize = b.dataSize ∧ b.setFinish.cls = b.cls ∧
+    b.setFinish.stype = b.stype ∧ b.setFinish.isLazy = b.isLazy ∧
+    b.setFinish.isLoaded = b.isLoaded := by
+  have h1 := setSize_toNat b b.dataSize hb
+  obtain ⟨h2, h3, h4, h5, h6, h7, h8⟩ := setSize_other b b.dataSize
+  unfold SecBuf.setFinish
+  by_cases ht : (b.setSize b.dataSize).translatorEmpty = true
+  · simp only [ht, if_true]; exact ⟨h1, h2, h3, h5, h4, h6, h7⟩
+  · simp only [ht, if_false]; exact ⟨h1, h2, h3, h5, h4, h6, h7⟩
+
+/-- **replace** -/
+theorem set_refines (b : SecBuf) (hI : b.Inv) (raw : Bytes) (hb : Bound b.cls raw.length) :
+    ∃ b', b.setData (some raw) (BitVec.ofNat 64 raw.length) = .ok b' ∧ b'.Resident ∧ b'.cls = b.cls ∧
+      b'.content = raw := by
+  have hlt := bound_lt hb
+  have hn : (BitVec.ofNat 64 raw.length).toNat = raw.length := by
+    simp only [BitVec.toNat_ofNat, Nat.reducePow]; omega
+  have hnb : b.stype ≠ BitVec.ofNat 32 SHT_NOBITS := by
+    rcases hI with h | ⟨d, h⟩
+    · exact h.notNobits
+    · have := h.typeOk
+      simp only [SecBuf.isNullOrNobits, Bool.or_eq_false_iff] at this
+      intro e; rw [e] at this; simp at this
+  have hnn : sec64_set_data_not_nobits b.stype = true := by
+    simpa [sec64_set_data_not_nobits] using hnb
+  have hr : rdRange "set_data/copy-src" (some raw) 0 raw.length = .ok raw := by
+    rw [rdRange_some_ok (by omega)]; simp [slice]
+  have hw := wr_ok "set_data/copy" (alloc raw.length) 0 raw (by simp)
+  have hwe : wr (alloc raw.length) 0 raw = raw := by simp [wr]
+  unfold SecBuf.setData
+  simp only [s32_sd_not_nobits, s32_sd_alloc, ite_self, hnn, if_true, sec64_set_data_alloc, hn, hr, hw,
+    hwe, bind, Except.bind, pure, Except.pure]
+  obtain ⟨f1, f2, f3, f4, f5, f6, f7⟩ := setFinish_props
+    { b with data := some raw, dataSize := BitVec.ofNat 64 raw.length } (by rw [hn]; exact hb)
+  have hr' : ({ b with data := some raw, dataSize := BitVec.ofNat 64 raw.length } : SecBuf).setFinish.Resident :=
+    ⟨by rw [f5]; exact hnb, by rw [f2]; simp,
+      Or.inr ⟨raw, f2, by rw [f1, f3]; exact Nat.le_refl _, by rw [f3]; show (BitVec.ofNat 64 raw.length).toNat ≤ _; rw [hn]; exact Nat.le_refl _⟩,
+      by rw [f1, f3]; omega⟩
+  refine ⟨_, rfl, hr', f4, ?_⟩
+  rw [content_resident hr']; unfold SecBuf.view; rw [f1, f2]; simp [hn]
+
+/-- **C07, one operation** : every editing operation on a reachable non-NOBITS section succeeds
+    (no access outside the buffers) and refines the byte-string operation. -/
+theorem edit_refines (b : SecBuf) (hI : b.Inv) (op : Spec.EditOp)
+    (hb : Bound b.cls (b.content.length + (opChunk op).length)) (hp : opPos op < 18446744073709551616) :
+    ∃ b', b.applyOp op = .ok b' ∧ b'.Inv ∧ b'.cls = b.cls ∧ b'.content = Spec.edit b.content op := by
+  cases op with
+  | replace bs =>
+    have hb' : Bound b.cls bs.length := by
+      simp only [opChunk] at hb
+      cases hc : b.cls <;> simp only [hc, Bound] at hb ⊢ <;> omega
+    obtain ⟨b', e, r, c, v⟩ := set_refines b hI bs hb'
+    exact ⟨b', e, Or.inl r, c, v⟩
+  | append bs =>
+    obtain ⟨b', e, r, c, v⟩ := append_refines b hI bs hb
+    exact ⟨b', e, Or.inl r, c, v⟩
+  | insert pos bs =>
+    obtain ⟨b', e, r, c, v⟩ := insert_refines b hI (BitVec.ofNat 64 pos) bs hb
+    refine ⟨b', e, Or.inl r, c, ?_⟩
+    have : (BitVec.ofNat 64 pos).toNat = pos := by
+      simp only [opPos] at hp
+      simp only [BitVec.toNat_ofNat, Nat.reducePow]; omega
+    rw [v, this]; rfl
+
+/-- **C07, any sequence** : after any sequence of replace / append / insert operations the section
+    stands for the byte string subjected to the same operations (induction over the sequence;
+    no bound on its length). -/
+theorem edits_refine (b : SecBuf) (hI : b.Inv) (ops : List Spec.EditOp)
+    (hfit : OpsFit b.cls b.content ops) :
+    ∃ b', b.applyOps ops = .ok b' ∧ b'.Inv ∧ b'.content = ops.foldl Spec.edit b.content := by
+  induction ops generalizing b with
+  | nil => exact ⟨b, rfl, hI, rfl⟩
+  | cons op ops ih =>
+    obtain ⟨h1, h2, h3⟩ := hfit
+    obtain ⟨b1, e1, i1, c1, v1⟩ := edit_refines b hI op h1 h2
+    obtain ⟨b2, e2, i2, v2⟩ := ih b1 i1 (by rw [c1, v1]; exact h3)
+    refine ⟨b2, ?_, i2, by rw [v2, v1]; rfl⟩
+    simp only [SecBuf.applyOps, e1, bind, Except.bind]
+    exact e2
+
+/-- an insert at a position beyond the current size changes nothing -/
+theorem insert_beyond_noop (b : SecBuf) (hI : b.Inv) (pos : BitVec 64) (raw : Bytes)
+    (hb : Bound b.cls (b.content.length + raw.length)) (hpos : b.content.length < pos.toNat) :
+    ∃ b', b.insertData pos raw = .ok b' ∧ b'.content = b.content := by
+  obtain ⟨b', e, _, _, v⟩ := insert_refines b hI pos raw hb
+  refine ⟨b', e, ?_⟩
+  rw [v]; simp [Spec.insertAt]; omega
+
+/-- NOBITS sections never acquire data, whatever is done to them -/
+theorem nobits_never_data (b : SecBuf) (hty : b.stype = BitVec.ofNat 32 SHT_NOBITS) (hd : b.data = none) :
+    (∀ raw sz b', b.setData raw sz = .ok b' → b'.data = none ∧ b'.stype = b.stype) ∧
+    (∀ pos raw, b.insertData pos raw = .ok b) ∧ (∀ raw, b.appendData raw = .ok b) := by
+  refine ⟨?_, ?_, ?_⟩
+  · intro raw sz b' e
+    unfold SecBuf.setData at e
+    simp only [s32_sd_not_nobits, ite_self, sec64_set_data_not_nobits, hty, bne_self_eq_false,
+      Bool.false_eq_true, if_false, pure, Except.pure] at e
+    cases e
+    obtain ⟨s2, s3, s4, s5, s6, s7, s8⟩ := setSize_other b b.dataSize
+    unfold SecBuf.setFinish
+    by_cases ht : (b.setSize b.dataSize).translatorEmpty = true
+    · simp only [ht, if_true]; exact ⟨by rw [s2]; exact hd, s4⟩
+    · simp only [ht, Bool.false_eq_true, if_false]; exact ⟨by rw [s2]; exact hd, s4⟩
+  · intro pos raw
+    unfold SecBuf.insertData
+    simp [g_not_nobits, hty, pure, Except.pure]
+  · intro raw
+    unfold SecBuf.appendData SecBuf.insertData
+    simp [g_not_nobits, hty, pure, Except.pure]
+
+/-- a freshly created section satisfies the invariant and stands for the empty string -/
+theorem fresh_inv (cls : Cls) (ty : BitVec 32) (hty : ty ≠ BitVec.ofNat 32 SHT_NOBITS) :
+    (SecBuf.fresh cls ty).Inv ∧ (SecBuf.fresh cls ty).content = [] := by
+  have r : (SecBuf.fresh cls ty).Resident :=
+    ⟨hty, by simp [SecBuf.fresh], Or.inl ⟨rfl, rfl, rfl⟩, by simp [SecBuf.fresh]⟩
+  exact ⟨Or.inl r, by rw [content_resident r]; simp [SecBuf.view, SecBuf.fresh]⟩
+
+/-- an eagerly loaded section (data read succeeded) satisfies the invariant and stands for its
+    file bytes -/
+theorem loaded_inv (cls : Cls) (ty : BitVec 32) (d : Bytes) (ss : BitVec 64)
+    (hty : ty ≠ BitVec.ofNat 32 SHT_NOBITS) (hd : d.length < 18446744073709551616) :
+    (SecBuf.loadedEager cls ty d ss).Inv ∧ (SecBuf.loadedEager cls ty d ss).content = d := by
+  have hn : (BitVec.ofNat 64 d.length).toNat = d.length := by
+    simp only [BitVec.toNat_ofNat, Nat.reducePow]; omega
+  have r : (SecBuf.loadedEager cls ty d ss).Resident := by
+    by_cases h0 : d.length = 0
+    · refine ⟨hty, by simp [SecBuf.loadedEager], Or.inr ⟨alloc 1, by simp [SecBuf.loadedEager, h0], ?_, ?_⟩, ?_⟩
+        <;> simp [SecBuf.loadedEager, h0]
+    · refine ⟨hty, by simp [SecBuf.loadedEager], Or.inr ⟨d ++ [0], by simp [SecBuf.loadedEager, h0], ?_, ?_⟩, ?_⟩
+        <;> simp [SecBuf.loadedEager, h0, hn] <;> omega
+  refine ⟨Or.inl r, ?_⟩
+  rw [content_resident r]
+  by_cases h0 : d.length = 0
+  · have : d = [] := List.eq_nil_of_length_eq_zero h0
+    simp [SecBuf.view, SecBuf.loadedEager, this]
+  · simp [SecBuf.view, SecBuf.loadedEager, h0, hn]
+
+/-- a lazily loaded, not yet resident section (readable data) satisfies the invariant and stands
+    for its file bytes -/
+theorem lazy_inv (cls : Cls) (ty : BitVec 32) (d : Bytes) (ss : BitVec 64)
+    (hty : ty ≠ BitVec.ofNat 32 SHT_NOBITS) (hty0 : ty ≠ BitVec.ofNat 32 SHT_NULL)
+    (hd : d.length < 18446744073709551616) :
+    (SecBuf.loadedLazy cls ty d ss).Inv ∧ (SecBuf.loadedLazy cls ty d ss).content = d := by
+  have hn : (BitVec.ofNat 64 d.length).toNat = d.length := by
+    simp only [BitVec.toNat_ofNat, Nat.reducePow]; omega
+  have p : (SecBuf.loadedLazy cls ty d ss).Pending d :=
+    ⟨rfl, rfl, rfl, rfl, rfl, by simp [SecBuf.loadedLazy, hn], by
+      simp [SecBuf.isNullOrNobits, SecBuf.loadedLazy, hty, hty0]⟩
+  exact ⟨Or.inr ⟨d, p⟩, content_pending p⟩
+
+/-! ### non-vacuity: concrete reachable states meet the hypotheses -/
+example : (SecBuf.fresh .c64 1).Inv := (fresh_inv .c64 1 (by decide)).1
+example : (SecBuf.loadedLazy .c32 1 [1, 2, 3] 400).Inv := (lazy_inv .c32 1 [1, 2, 3] 400 (by decide) (by decide) (by decide)).1
+example : OpsFit .c32 [1, 2, 3] [.insert 1 [9], .append [7, 7], .replace [], .insert 5 [1]] := by
+  simp [OpsFit, Bound, opChunk, opPos, Spec.edit, Spec.insertAt]
+
+end C07
+end ElfioVerif
